@@ -234,6 +234,57 @@ theorem C09_eco_request_named (idna : Bytes → Option Bytes) (ua : Bytes) (w : 
   · rw [hurl]
     exact C09_http_host_header_named name (port.getD Eco.DEFAULT_PORT) .http
 
+/-- `from_url` (the services' way in: a URL instead of an address): whenever a client is built, every name is resolved to ONE
+socket address, fixed when the client is made — for an IP-literal URL that very address with the URL's port (or the scheme's
+default), for a domain the FIRST address the system resolver returned for `(domain, port)` (the lookup is a parameter) —
+and the host text of the URL is what `new` is given as host name; a failed or empty lookup is `HostLookup`. -/
+theorem C09_http_from_url (idna : Bytes → Option Bytes) (ua : Bytes) (lookup : Bytes → Nat → Option (List SocketAddr)) (tls : Bool)
+    (url : Url) (ts : Option Settings.Timeout) (headers : Option (List (Bytes × Bytes))) :
+    (∀ client, Http.fromUrl idna ua lookup tls url ts headers = .ok client →
+      ∃ address, (∀ name, client.agent.resolver name = [address])
+        ∧ Http.new idna ua address ts ⟨if url.protocol == .https && tls then .https else .http, some url.host.text, headers.getD []⟩ = .ok client
+        ∧ ((∃ d rest, url.host = .domain d ∧ lookup d url.portOrDefault = some (address :: rest))
+           ∨ (url.host.ipAddr = some address.ip ∧ address.port = url.portOrDefault)))
+    ∧ (∀ d, url.host = .domain d → (lookup d url.portOrDefault = none ∨ lookup d url.portOrDefault = some []) →
+        Http.fromUrl idna ua lookup tls url ts headers = .err .hostLookup) := by
+  constructor
+  · intro client h
+    unfold Http.fromUrl at h
+    simp only [] at h
+    generalize hset : (⟨if url.protocol == .https && tls then .https else .http, some url.host.text, headers.getD []⟩ : HttpSettings) = hs at h ⊢
+    cases hh : url.host with
+    | domain d =>
+      rw [hh] at h
+      simp only [] at h
+      cases hl : lookup d url.portOrDefault with
+      | none => rw [hl] at h; cases h
+      | some l =>
+        cases l with
+        | nil => rw [hl] at h; cases h
+        | cons a rest =>
+          rw [hl] at h
+          exact ⟨a, C09_http_connects_to_the_address idna ua a ts _ client h, h, .inl ⟨d, rest, rfl, hl⟩⟩
+    | ipv4 n =>
+      rw [hh] at h
+      simp only [] at h
+      cases hip : (Host.ipv4 n).ipAddr with
+      | none => rw [hip] at h; cases h
+      | some ip =>
+        rw [hip] at h
+        exact ⟨_, C09_http_connects_to_the_address idna ua _ ts _ client h, h, .inr ⟨rfl, rfl⟩⟩
+    | ipv6 segs =>
+      rw [hh] at h
+      simp only [] at h
+      cases hip : (Host.ipv6 segs).ipAddr with
+      | none => rw [hip] at h; cases h
+      | some ip =>
+        rw [hip] at h
+        exact ⟨_, C09_http_connects_to_the_address idna ua _ ts _ client h, h, .inr ⟨rfl, rfl⟩⟩
+  · intro d hd hl
+    unfold Http.fromUrl
+    simp only [hd]
+    rcases hl with hl | hl <;> rw [hl]
+
 -- non-vacuity: a plain name, plain segments, and what the model computes on concrete, non-trivial inputs
 example : PlainName (asciiBytes "Play.Eco-1.example") := ⟨by decide, by decide, by decide, by decide⟩
 example : PlainSegment (asciiBytes "frontpage") := ⟨by decide, by decide, by decide⟩
